@@ -14,7 +14,7 @@ func init() {
 		ID:    "C02",
 		Level: "exploration",
 		Rule: "inputs = atom catalogue, /repo testdata, llvm-stress programs, generated modules and, for each of them, W6 respellings (hex integers, unsigned-decimal spellings of negative integers, hex floats, redundantly quoted names, comments/blank lines, shuffled definitions); for every input x the parser accepts: y=print(parse x) must be accepted, print(parse y) must equal y byte for byte, and the object graphs of parse(x) and parse(y) must serialise identically (identity-bearing objects in bijection, the rest by value). " +
-			"llir-only: 37 hand-written inputs LLVM 14 rejects and the parser may accept (attribute-group spelling of the alignment in a function header, out-of-range and inexact decimal floats, hexadecimal doubles that are not values of half/float, operand or callee type text disagreeing with the definition, a named void call, out-of-range integer literals, repeated switch cases ...) go through the same three comparisons: the property quantifies over every input the parser accepts. " +
+			"llir-only: 40 hand-written inputs LLVM 14 rejects and the parser may accept (attribute-group spelling of the alignment in a function header, out-of-range and inexact decimal floats, hexadecimal doubles that are not values of half/float, operand or callee type text disagreeing with the definition, a named void call, out-of-range integer literals, repeated switch cases ...) go through the same three comparisons: the property quantifies over every input the parser accepts. " +
 			"non-trivial = an accepted input whose printed form differs from the input text (a normalisation happened); distinct by digest of x",
 		Gen:           genC02,
 		MinNontrivial: 100,
@@ -51,7 +51,10 @@ func genC02(ctx *fw.Ctx) []fw.Case {
 func c02LlirOnly(r *fw.Rec) {
 	inputs := map[string]string{
 		// attribute-group spelling of the alignment in a function header
-		"header-align-pair": "define void @f() align=8 section \"s\" {\n  ret void\n}\n",
+		"header-align-pair":      "define void @f() align=8 section \"s\" {\n  ret void\n}\n",
+		"global-align-pair":      "@g = global i32 0 align=8\n",
+		"call-site-align-pair":   "declare void @g()\ndefine void @f() {\n  call void @g() align=8\n  ret void\n}\n",
+		"header-alignstack-pair": "define void @f() alignstack=8 {\n  ret void\n}\n",
 		// decimal literals outside the range / precision of the type
 		"half-decimal-overflow":  "@i = global half 70000.0\n",
 		"half-decimal-inexact":   "@j = global half 0.1\n",
